@@ -7,6 +7,8 @@ mod algorithm;
 pub use algorithm::Algorithm;
 mod congestion;
 pub use congestion::ArcCC;
+#[cfg(gmquic_verif)]
+pub use congestion::verif::{VerifPacket, VerifSnapshot, VerifSpace};
 mod pacing;
 mod packets;
 mod rtt;
